@@ -55,9 +55,10 @@ CHECKS.update({
             "Symbolic AEAD: a modified ciphertext opens under no key.", "6/C07"),
  "C09": env("Secret creation/release traces must equal the model's (release compared as a set per operation); no use after release, no double release, nothing live with caching disabled, nothing live after teardown. "
             "PROVED: the data key of an Encrypt is released on every outcome; over all histories, in a session with key caching disabled ANY Decrypt (any record, tampering, fault plan, outcome) leaves every secret it "
-            "allocated closed and touches no earlier secret or key object (ownership invariant with exact reference counts, Envelope/Release.v); secrets are never reopened.",
-            "Known finding C09-J (system key looked up on parent mismatch is never released) refutes exact accounting on the Encrypt duplicate-fallback path, so 'released on Close' for cached keys and the no-cache Encrypt "
-            "are decided by the trace correspondence and the monitor, not by a theorem.", "6/C09"),
+            "allocated closed and touches no earlier secret or key object, and ANY Encrypt there leaves every secret it allocated closed except at most one - the system key leaked by finding C09-J - "
+            "(ownership invariant with exact reference counts through all load/create/store/duplicate-fallback paths, Envelope/Release.v 850 lines); secrets are never reopened.",
+            "Known finding C09-J (system key looked up on parent mismatch is never released) refutes exact accounting on the Encrypt duplicate-fallback path; 'released on Close' for CACHED keys "
+            "is decided by the trace correspondence and the monitor, not by a theorem.", "6/C09"),
  "C10": env("Coq theorems on a statement-level model of the unwrapping sites (decryptRow, systemKeyFromEKR, intermediateKeyFromEKR, NewCryptoKey, both AWS plugins' EncryptKey/DecryptKey): for EVERY choice of "
             "failing later steps and every list of regions, every buffer that held key plaintext is zero at return (except the system-key buffer handed to the caller, wiped by NewCryptoKey on both outcomes). "
             "Decided on the code by a monitor: every buffer returned by AEAD/KMS key-unwrapping calls and every buffer passed to a failing SecretFactory.New is re-read after the public call returns, under fault "
